@@ -447,6 +447,9 @@ func (chunk *IDChunk) ReadFrom(r io.Reader) (int64, error) {
 		}
 		chunk.Blocks = append(chunk.Blocks, name)
 	}
+	if blockBytesRead != int64(blockLen) {
+		return bytesRead, fmt.Errorf("IDChunk length %d does not match its blocks (%d bytes)", chunkLen, blockBytesRead+2)
+	}
 
 	return bytesRead, nil
 }
